@@ -25,6 +25,7 @@
 //@include prelude_types.rs
 //@include prelude_geo.rs
 //@include frag_rect_access.rs
+//@include frag_seg_geometry.rs
 verus! {
 
 pub trait GeoFloat: GeoNum {}
@@ -37,9 +38,6 @@ impl<T: GeoFloat> Kernel<T> for RobustKernel {
 pub mod kernels { pub use super::Kernel; pub use super::Orientation; pub use super::RobustKernel; }
 
 // ------------------------------------------------------------------ assumed collaborators
-pub open spec fn imin(a: int, b: int) -> int { if a <= b { a } else { b } }
-pub open spec fn imax(a: int, b: int) -> int { if a >= b { a } else { b } }
-pub open spec fn in_box(p: P2, a: P2, b: P2) -> bool { between(p.x, a.x, b.x) && between(p.y, a.y, b.y) }
 pub open spec fn wf_rect<T: CoordNum>(r: Rect<T>) -> bool { pt(rmin(r)).x <= pt(rmax(r)).x && pt(rmin(r)).y <= pt(rmax(r)).y }
 pub open spec fn rect_of<T: CoordNum>(r: Rect<T>, a: P2, b: P2) -> bool {
     pt(rmin(r)) == (P2 { x: imin(a.x, b.x), y: imin(a.y, b.y) }) && pt(rmax(r)) == (P2 { x: imax(a.x, b.x), y: imax(a.y, b.y) })
@@ -67,321 +65,6 @@ impl<T: CoordNum> Intersects<Coord<T>> for Rect<T> {
 pub uninterp spec fn m_proper<F: GeoFloat>(p: Line<F>, q: Line<F>) -> Coord<F>;
 #[verifier::external_body]
 fn proper_intersection<F: GeoFloat>(p: Line<F>, q: Line<F>) -> (r: Coord<F>) ensures r == m_proper(p, q) { unimplemented!() }
-
-// ------------------------------------------------------------------ geometry
-proof fn lemma_ratio(u: int, v: int, f: int, dd: int)
-    requires u * dd == v * f, (0 <= f <= dd && dd > 0) || (dd <= f <= 0 && dd < 0)
-    ensures (0 <= u <= v) || (v <= u <= 0)
-{
-    if dd > 0 {
-        if v >= 0 {
-            assert(0 <= v * f <= v * dd) by (nonlinear_arith) requires 0 <= f <= dd, v >= 0;
-            assert(u >= 0) by (nonlinear_arith) requires u * dd >= 0, dd > 0;
-            assert(u <= v) by (nonlinear_arith) requires u * dd <= v * dd, dd > 0;
-        } else {
-            assert(v * dd <= v * f <= 0) by (nonlinear_arith) requires 0 <= f <= dd, v < 0;
-            assert(u <= 0) by (nonlinear_arith) requires u * dd <= 0, dd > 0;
-            assert(u >= v) by (nonlinear_arith) requires u * dd >= v * dd, dd > 0;
-        }
-    } else {
-        if v >= 0 {
-            assert(v * dd <= v * f <= 0) by (nonlinear_arith) requires dd <= f <= 0, v >= 0;
-            assert(u >= 0) by (nonlinear_arith) requires u * dd <= 0, dd < 0;
-            assert(u <= v) by (nonlinear_arith) requires u * dd >= v * dd, dd < 0;
-        } else {
-            assert(0 <= v * f <= v * dd) by (nonlinear_arith) requires dd <= f <= 0, v < 0;
-            assert(u <= 0) by (nonlinear_arith) requires u * dd >= 0, dd < 0;
-            assert(u >= v) by (nonlinear_arith) requires u * dd <= v * dd, dd < 0;
-        }
-    }
-}
-/// cross(c, d, p) written with the offsets of p from c:  Q (c.x - p.x) - P (c.y - p.y),  P = d.x - c.x, Q = d.y - c.y
-proof fn lemma_cross_offsets(c: P2, d: P2, p: P2)
-    ensures cross(c, d, p) == (d.y - c.y) * (c.x - p.x) - (d.x - c.x) * (c.y - p.y)
-{
-    assert(cross(c, d, p) == (d.y - c.y) * (c.x - p.x) - (d.x - c.x) * (c.y - p.y)) by (nonlinear_arith)
-        requires cross(c, d, p) == (d.x - c.x) * (p.y - d.y) - (d.y - c.y) * (p.x - d.x);
-}
-/// u (Q v - P w) - v (Q u - P s) == P (v s - u w)   (degree 3: staged through named degree-2 products)
-proof fn lemma_degree3(u: int, v: int, w: int, s: int, p: int, q: int)
-    ensures u * (q * v - p * w) - v * (q * u - p * s) == p * (v * s - u * w)
-{
-    let qv = q * v; let pw = p * w; let qu = q * u; let ps = p * s; let vs = v * s; let uw = u * w;
-    assert(u * (qv - pw) == u * qv - u * pw) by (nonlinear_arith);
-    assert(v * (qu - ps) == v * qu - v * ps) by (nonlinear_arith);
-    assert(p * (vs - uw) == p * vs - p * uw) by (nonlinear_arith);
-    assert(u * qv == v * qu) by (nonlinear_arith) requires qv == q * v, qu == q * u;
-    assert(u * pw == p * uw) by (nonlinear_arith) requires pw == p * w, uw == u * w;
-    assert(v * ps == p * vs) by (nonlinear_arith) requires ps == p * s, vs == v * s;
-}
-/// c on the carrier line of ab, and a, b on opposite (closed) sides of the line cd, not both on it: c is ON segment ab
-pub proof fn lemma_crossing_point_on_segment(a: P2, b: P2, c: P2, d: P2)
-    requires
-        cross(a, b, c) == 0,
-        (cross(c, d, a) <= 0 <= cross(c, d, b)) || (cross(c, d, b) <= 0 <= cross(c, d, a)),
-        cross(c, d, a) != cross(c, d, b),
-    ensures on_segment(c, a, b)
-{
-    let fa = cross(c, d, a);
-    let fb = cross(c, d, b);
-    let (u, s) = (c.x - a.x, c.y - a.y);
-    let (v, w) = (b.x - a.x, b.y - a.y);
-    let (p, q) = (d.x - c.x, d.y - c.y);
-    lemma_cross_offsets(c, d, a);
-    lemma_cross_offsets(c, d, b);
-    assert(fa == q * u - p * s);
-    assert(fb == q * (u - v) - p * (s - w));
-    assert(fa - fb == q * v - p * w) by (nonlinear_arith) requires fa == q * u - p * s, fb == q * (u - v) - p * (s - w);
-    assert(cross(a, b, c) == v * s - u * w) by (nonlinear_arith)
-        requires cross(a, b, c) == v * ((s - w)) - w * ((u - v));
-    lemma_degree3(u, v, w, s, p, q);
-    assert(p * (v * s - u * w) == 0) by (nonlinear_arith) requires v * s - u * w == 0;
-    assert(u * (fa - fb) == v * fa);
-    lemma_degree3(s, w, v, u, q, p);
-    assert(q * (w * u - s * v) == 0) by (nonlinear_arith) requires v * s - u * w == 0;
-    assert(s * (p * w - q * v) == w * (p * s - q * u));
-    assert(s * (fa - fb) == w * fa) by (nonlinear_arith) requires s * (p * w - q * v) == w * (p * s - q * u), fa - fb == q * v - p * w, fa == q * u - p * s;
-    lemma_ratio(u, v, fa, fa - fb);
-    lemma_ratio(s, w, fa, fa - fb);
-}
-
-/// cross(a,b,d) - cross(a,b,c) == cross(c,d,a) - cross(c,d,b)   and   cross(d,c,p) == -cross(c,d,p)
-pub proof fn lemma_four_crosses(a: P2, b: P2, c: P2, d: P2)
-    ensures
-        cross(a, b, d) - cross(a, b, c) == cross(c, d, a) - cross(c, d, b),
-        cross(d, c, a) == -cross(c, d, a), cross(d, c, b) == -cross(c, d, b),
-        cross(b, a, c) == -cross(a, b, c), cross(b, a, d) == -cross(a, b, d),
-{
-    let (v, w) = (b.x - a.x, b.y - a.y);
-    let (pp, qq) = (d.x - c.x, d.y - c.y);
-    lemma_cross_offsets(a, b, d); lemma_cross_offsets(a, b, c); lemma_cross_offsets(c, d, a); lemma_cross_offsets(c, d, b);
-    // cross(a,b,d) - cross(a,b,c) = w (c.x - d.x) - v (c.y - d.y)
-    assert(w * (a.x - d.x) - w * (a.x - c.x) == w * (c.x - d.x)) by (nonlinear_arith);
-    assert(v * (a.y - d.y) - v * (a.y - c.y) == v * (c.y - d.y)) by (nonlinear_arith);
-    // cross(c,d,a) - cross(c,d,b) = qq (b.x - a.x) - pp (b.y - a.y)
-    assert(qq * (c.x - a.x) - qq * (c.x - b.x) == qq * (b.x - a.x)) by (nonlinear_arith);
-    assert(pp * (c.y - a.y) - pp * (c.y - b.y) == pp * (b.y - a.y)) by (nonlinear_arith);
-    assert(w * (c.x - d.x) == -(pp * w)) by (nonlinear_arith) requires pp == d.x - c.x;
-    assert(v * (c.y - d.y) == -(qq * v)) by (nonlinear_arith) requires qq == d.y - c.y;
-    lemma_flip(c, d, a); lemma_flip(c, d, b); lemma_flip(a, b, c); lemma_flip(a, b, d);
-}
-proof fn lemma_flip(c: P2, d: P2, p: P2) ensures cross(d, c, p) == -cross(c, d, p) {
-    lemma_cross_offsets(d, c, p); lemma_cross_offsets(c, d, p);
-    let (pp, qq) = (d.x - c.x, d.y - c.y);
-    // cross(d,c,p) = (c.y-d.y)(d.x-p.x) - (c.x-d.x)(d.y-p.y);  cross(c,d,p) = qq (c.x-p.x) - pp (c.y-p.y)
-    assert((c.y - d.y) * (d.x - p.x) == -(qq * (d.x - p.x))) by (nonlinear_arith) requires qq == d.y - c.y;
-    assert((c.x - d.x) * (d.y - p.y) == -(pp * (d.y - p.y))) by (nonlinear_arith) requires pp == d.x - c.x;
-    assert(qq * (d.x - p.x) == qq * (c.x - p.x) + qq * pp) by (nonlinear_arith) requires pp == d.x - c.x;
-    assert(pp * (d.y - p.y) == pp * (c.y - p.y) + pp * qq) by (nonlinear_arith) requires qq == d.y - c.y;
-    assert(qq * pp == pp * qq) by (nonlinear_arith);
-}
-/// an end point of one segment that is collinear with the other segment, whose ends are not strictly on one side of
-/// the first: it lies ON the other segment -- unless all four orientations vanish (the collinear case)
-pub proof fn lemma_touching(a: P2, b: P2, c: P2, d: P2)
-    requires
-        !same_strict_side(cross(a, b, c), cross(a, b, d)), !same_strict_side(cross(c, d, a), cross(c, d, b)),
-        !(cross(a, b, c) == 0 && cross(a, b, d) == 0 && cross(c, d, a) == 0 && cross(c, d, b) == 0),
-    ensures
-        cross(a, b, c) == 0 ==> on_segment(c, a, b),
-        cross(a, b, d) == 0 ==> on_segment(d, a, b),
-        cross(c, d, a) == 0 ==> on_segment(a, c, d),
-        cross(c, d, b) == 0 ==> on_segment(b, c, d),
-{
-    lemma_four_crosses(a, b, c, d);
-    if cross(a, b, c) == 0 { if cross(c, d, a) != cross(c, d, b) { lemma_crossing_point_on_segment(a, b, c, d); } }
-    if cross(a, b, d) == 0 { if cross(d, c, a) != cross(d, c, b) { lemma_crossing_point_on_segment(a, b, d, c); } }
-    if cross(c, d, a) == 0 { if cross(a, b, c) != cross(a, b, d) { lemma_crossing_point_on_segment(c, d, a, b); } }
-    if cross(c, d, b) == 0 { if cross(b, a, c) != cross(b, a, d) { lemma_crossing_point_on_segment(c, d, b, a); } }
-}
-
-/// the end points of a segment lie on it
-pub proof fn lemma_ends_on_segment(a: P2, b: P2) ensures on_segment(a, a, b), on_segment(b, a, b) {
-    assert(cross(a, b, a) == 0) by (nonlinear_arith) requires cross(a, b, a) == (b.x - a.x) * (a.y - b.y) - (b.y - a.y) * (a.x - b.x);
-    assert(cross(a, b, b) == 0) by (nonlinear_arith) requires cross(a, b, b) == (b.x - a.x) * (b.y - b.y) - (b.y - a.y) * (b.x - b.x);
-}
-
-/// on a common carrier line the box test is one-dimensional: for a, b, p collinear and a != b, membership of p in the
-/// box of [a, b] is decided by the x coordinates alone (non-vertical line) or by the y coordinates alone (vertical line)
-pub proof fn lemma_collinear_1d(a: P2, b: P2, p: P2)
-    requires cross(a, b, p) == 0, a != b,
-    ensures
-        a.x != b.x ==> (in_box(p, a, b) == between(p.x, a.x, b.x)),
-        a.x == b.x ==> p.x == a.x && (in_box(p, a, b) == between(p.y, a.y, b.y)),
-{
-    let (v, w) = (b.x - a.x, b.y - a.y);
-    let (u, s) = (p.x - a.x, p.y - a.y);
-    // cross(a, b, p) = v (p.y - b.y) - w (p.x - b.x) = v s - w u
-    assert(cross(a, b, p) == v * s - w * u) by (nonlinear_arith) requires cross(a, b, p) == v * (s - w) - w * (u - v);
-    if v != 0 {
-        if between(p.x, a.x, b.x) {
-            assert(s * v == w * u) by (nonlinear_arith) requires v * s - w * u == 0;
-            lemma_ratio(s, w, u, v);
-        }
-    } else {
-        assert(w != 0);
-        assert(u == 0) by (nonlinear_arith) requires w * u == 0, w != 0;
-    }
-}
-/// two distinct points of a non-vertical line have different x coordinates
-pub proof fn lemma_collinear_distinct_x(a: P2, b: P2, c: P2, d: P2)
-    requires cross(a, b, c) == 0, cross(a, b, d) == 0, a != b, c != d,
-    ensures (a.x != b.x) == (c.x != d.x),
-{
-    let (v, w) = (b.x - a.x, b.y - a.y);
-    lemma_cross_offsets(a, b, c); lemma_cross_offsets(a, b, d);
-    assert(w * (a.x - c.x) - w * (a.x - d.x) == w * (d.x - c.x)) by (nonlinear_arith);
-    assert(v * (a.y - c.y) - v * (a.y - d.y) == v * (d.y - c.y)) by (nonlinear_arith);
-    assert(w * (d.x - c.x) == -(w * (c.x - d.x))) by (nonlinear_arith);
-    assert(v * (d.y - c.y) == -(v * (c.y - d.y))) by (nonlinear_arith);
-    assert(v * (c.y - d.y) - w * (c.x - d.x) == 0);
-    if v != 0 && c.x == d.x {
-        assert(c.y - d.y == 0) by (nonlinear_arith) requires v * (c.y - d.y) - w * (c.x - d.x) == 0, c.x == d.x, v != 0;
-    }
-    if v == 0 && c.x != d.x {
-        assert(w != 0);
-        assert(false) by (nonlinear_arith) requires v * (c.y - d.y) - w * (c.x - d.x) == 0, v == 0, w != 0, c.x != d.x;
-    }
-}
-
-/// one axis of the crossing point: X D = a0 D + (b0 - a0) f = c0 D + (d0 - c0) g with 0 <= f, g <= D: the intervals
-/// [a0, b0] and [c0, d0] overlap
-proof fn lemma_axis(a0: int, b0: int, c0: int, d0: int, f: int, g: int, dd: int)
-    requires dd > 0, 0 <= f <= dd, 0 <= g <= dd, (a0 - c0) * dd + (b0 - a0) * f - (d0 - c0) * g == 0,
-    ensures !(imax(a0, b0) < imin(c0, d0)), !(imin(a0, b0) > imax(c0, d0)),
-{
-    let v = b0 - a0; let pp = d0 - c0;
-    let xd = a0 * dd + v * f;
-    assert((a0 - c0) * dd == a0 * dd - c0 * dd) by (nonlinear_arith);
-    assert(xd == c0 * dd + pp * g);
-    if v >= 0 { assert(0 <= v * f <= v * dd) by (nonlinear_arith) requires 0 <= f <= dd, v >= 0; }
-    else { assert(v * dd <= v * f <= 0) by (nonlinear_arith) requires 0 <= f <= dd, v < 0; }
-    assert(v * dd == b0 * dd - a0 * dd) by (nonlinear_arith) requires v == b0 - a0;
-    if pp >= 0 { assert(0 <= pp * g <= pp * dd) by (nonlinear_arith) requires 0 <= g <= dd, pp >= 0; }
-    else { assert(pp * dd <= pp * g <= 0) by (nonlinear_arith) requires 0 <= g <= dd, pp < 0; }
-    assert(pp * dd == d0 * dd - c0 * dd) by (nonlinear_arith) requires pp == d0 - c0;
-    let (lo1, hi1, lo2, hi2) = (imin(a0, b0), imax(a0, b0), imin(c0, d0), imax(c0, d0));
-    assert(lo1 * dd <= xd <= hi1 * dd);
-    assert(lo2 * dd <= xd <= hi2 * dd);
-    if hi1 < lo2 { assert(hi1 * dd < lo2 * dd) by (nonlinear_arith) requires hi1 < lo2, dd > 0; }
-    if lo1 > hi2 { assert(lo1 * dd > hi2 * dd) by (nonlinear_arith) requires lo1 > hi2, dd > 0; }
-}
-/// -u (Q v - P w) + v (Q u - P s) + P (v s - u w) == 0   (the crossing point computed from either segment is the same)
-proof fn lemma_same_point(u: int, v: int, w: int, s: int, p: int, q: int)
-    ensures -(u * (q * v - p * w)) + v * (q * u - p * s) + p * (v * s - u * w) == 0
-{
-    lemma_degree3(u, v, w, s, p, q);
-}
-/// two segments each of which has its ends STRICTLY on opposite sides of the other: their envelopes intersect
-pub proof fn lemma_proper_cross_boxes(a: P2, b: P2, c: P2, d: P2)
-    requires
-        (cross(c, d, a) < 0 && 0 < cross(c, d, b)) || (cross(c, d, b) < 0 && 0 < cross(c, d, a)),
-        (cross(a, b, c) < 0 && 0 < cross(a, b, d)) || (cross(a, b, d) < 0 && 0 < cross(a, b, c)),
-    ensures !boxes_disjoint(a, b, c, d)
-{
-    let (fa, fb, gc, gd) = (cross(c, d, a), cross(c, d, b), cross(a, b, c), cross(a, b, d));
-    let (u, s) = (c.x - a.x, c.y - a.y);
-    let (v, w) = (b.x - a.x, b.y - a.y);
-    let (p, q) = (d.x - c.x, d.y - c.y);
-    lemma_four_crosses(a, b, c, d);          // gd - gc == fa - fb
-    lemma_cross_offsets(c, d, a);            // fa == q u - p s
-    lemma_cross_offsets(c, d, b);
-    assert(fb == q * (u - v) - p * (s - w));
-    assert(fa - fb == q * v - p * w) by (nonlinear_arith) requires fa == q * u - p * s, fb == q * (u - v) - p * (s - w);
-    assert(gc == v * s - u * w) by (nonlinear_arith) requires gc == v * ((s - w)) - w * ((u - v));
-    lemma_same_point(u, v, w, s, p, q);      // -u D + v fa + p gc == 0
-    lemma_same_point(s, w, v, u, q, p);      // -s (P w - Q v) + w (P s - Q u) + Q (w u - s v) == 0
-    let dd = fa - fb;
-    // x axis: (a.x - c.x) D + v fa - p (-gc) == 0
-    assert((a.x - c.x) * dd + v * fa - p * (-gc) == 0) by (nonlinear_arith)
-        requires -(u * (q * v - p * w)) + v * (q * u - p * s) + p * (v * s - u * w) == 0, dd == q * v - p * w, fa == q * u - p * s, gc == v * s - u * w, u == c.x - a.x;
-    // y axis: (a.y - c.y) D + w fa - q (-gc) == 0
-    assert((a.y - c.y) * dd + w * fa - q * (-gc) == 0) by (nonlinear_arith)
-        requires -(s * (p * w - q * v)) + w * (p * s - q * u) + q * (w * u - s * v) == 0, dd == q * v - p * w, fa == q * u - p * s, gc == v * s - u * w, s == c.y - a.y;
-    if dd > 0 {
-        lemma_axis(a.x, b.x, c.x, d.x, fa, -gc, dd);
-        lemma_axis(a.y, b.y, c.y, d.y, fa, -gc, dd);
-    } else {
-        assert((a.x - c.x) * (-dd) + v * (-fa) - p * gc == 0) by (nonlinear_arith) requires (a.x - c.x) * dd + v * fa - p * (-gc) == 0;
-        assert((a.y - c.y) * (-dd) + w * (-fa) - q * gc == 0) by (nonlinear_arith) requires (a.y - c.y) * dd + w * fa - q * (-gc) == 0;
-        lemma_axis(a.x, b.x, c.x, d.x, -fa, gc, -dd);
-        lemma_axis(a.y, b.y, c.y, d.y, -fa, gc, -dd);
-    }
-}
-/// a point of segment cd that lies on the carrier line of ab puts c and d on opposite closed sides of that line:
-/// so if c and d are STRICTLY on one side of ab, no point of cd -- in particular neither a nor b -- is on cd... (used
-/// through its contrapositive below)
-pub proof fn lemma_on_segment_opposite_sides(a: P2, b: P2, c: P2, d: P2)
-    requires on_segment(a, c, d), c != d,
-    ensures !same_strict_side(cross(a, b, c), cross(a, b, d))
-{
-    let (gc, gd) = (cross(a, b, c), cross(a, b, d));
-    if same_strict_side(gc, gd) {
-        // a is on line cd; by lemma_crossing_point_on_segment's identity with the roles (a,b,c,d) -> (c,d,a,b):
-        //   (a.x - c.x) (gc' - gd') == (d.x - c.x) gc'   where g' = cross(a, b, .) evaluated at c, d
-        let (u, s) = (a.x - c.x, a.y - c.y);
-        let (v, w) = (d.x - c.x, d.y - c.y);
-        let (p, q) = (b.x - a.x, b.y - a.y);
-        lemma_cross_offsets(a, b, c);
-        lemma_cross_offsets(a, b, d);
-        assert(gc == q * u - p * s);
-        assert(gd == q * (u - v) - p * (s - w));
-        assert(gc - gd == q * v - p * w) by (nonlinear_arith) requires gc == q * u - p * s, gd == q * (u - v) - p * (s - w);
-        assert(cross(c, d, a) == v * s - u * w) by (nonlinear_arith) requires cross(c, d, a) == v * ((s - w)) - w * ((u - v));
-        lemma_degree3(u, v, w, s, p, q);
-        assert(p * (v * s - u * w) == 0) by (nonlinear_arith) requires v * s - u * w == 0;
-        assert(u * (gc - gd) == v * gc);
-        lemma_degree3(s, w, v, u, q, p);
-        assert(q * (w * u - s * v) == 0) by (nonlinear_arith) requires v * s - u * w == 0;
-        assert(s * (p * w - q * v) == w * (p * s - q * u));
-        assert(s * (gc - gd) == w * gc) by (nonlinear_arith) requires s * (p * w - q * v) == w * (p * s - q * u), gc - gd == q * v - p * w, gc == q * u - p * s;
-        // (u - v) gc == u gd with u between 0 and v, gc and gd of one strict sign: u == 0 and u == v, so v == 0
-        assert((u - v) * gc == u * gd) by (nonlinear_arith) requires u * (gc - gd) == v * gc;
-        assert((s - w) * gc == s * gd) by (nonlinear_arith) requires s * (gc - gd) == w * gc;
-        assert(v == 0) by (nonlinear_arith)
-            requires (u - v) * gc == u * gd, (0 <= u <= v) || (v <= u <= 0), (gc > 0 && gd > 0) || (gc < 0 && gd < 0);
-        assert(w == 0) by (nonlinear_arith)
-            requires (s - w) * gc == s * gd, (0 <= s <= w) || (w <= s <= 0), (gc > 0 && gd > 0) || (gc < 0 && gd < 0);
-        assert(false);
-    }
-}
-/// the two rejections of `line_intersection` are sound: disjoint envelopes, or both ends of one segment strictly on one
-/// side of the other, mean the segments share no point (textbook test)
-pub proof fn lemma_rejections_sound(a: P2, b: P2, c: P2, d: P2)
-    requires a != b, c != d,
-    ensures
-        boxes_disjoint(a, b, c, d) ==> !seg_meet(a, b, c, d),
-        same_strict_side(cross(a, b, c), cross(a, b, d)) ==> !seg_meet(a, b, c, d),
-        same_strict_side(cross(c, d, a), cross(c, d, b)) ==> !seg_meet(a, b, c, d),
-{
-    let (fa, fb, gc, gd) = (cross(c, d, a), cross(c, d, b), cross(a, b, c), cross(a, b, d));
-    lemma_four_crosses(a, b, c, d);
-    if same_strict_side(gc, gd) {
-        if on_segment(a, c, d) { lemma_on_segment_opposite_sides(a, b, c, d); }
-        if on_segment(b, c, d) { lemma_flip(a, b, c); lemma_flip(a, b, d); lemma_on_segment_opposite_sides(b, a, c, d); }
-    }
-    if same_strict_side(fa, fb) {
-        if on_segment(c, a, b) { lemma_on_segment_opposite_sides(c, d, a, b); }
-        if on_segment(d, a, b) { lemma_flip(c, d, a); lemma_flip(c, d, b); lemma_on_segment_opposite_sides(d, c, a, b); }
-    }
-    if boxes_disjoint(a, b, c, d) && seg_meet(a, b, c, d) {
-        // an end point on the other segment is in both envelopes (linear); otherwise the orientations differ both ways
-        if !(on_segment(c, a, b) || on_segment(d, a, b) || on_segment(a, c, d) || on_segment(b, c, d)) {
-            if !(gc == 0 && gd == 0 && fa == 0 && fb == 0) { lemma_touching(a, b, c, d); }
-            // no orientation vanishes now: strict crossing
-            lemma_proper_cross_boxes(a, b, c, d);
-        }
-    }
-}
-
-/// textbook test: the closed segments [a,b] and [c,d] share a point (as the K oracle spec::seg_meet)
-pub open spec fn seg_meet(a: P2, b: P2, c: P2, d: P2) -> bool {
-    (orient_spec(a, b, c) != orient_spec(a, b, d) && orient_spec(c, d, a) != orient_spec(c, d, b))
-    || on_segment(c, a, b) || on_segment(d, a, b) || on_segment(a, c, d) || on_segment(b, c, d)
-}
-pub open spec fn same_strict_side(x: int, y: int) -> bool { (x > 0 && y > 0) || (x < 0 && y < 0) }
-pub open spec fn boxes_disjoint(a: P2, b: P2, c: P2, d: P2) -> bool {
-    imax(a.x, b.x) < imin(c.x, d.x) || imax(a.y, b.y) < imin(c.y, d.y) || imin(a.x, b.x) > imax(c.x, d.x) || imin(a.y, b.y) > imax(c.y, d.y)
-}
 
 // ------------------------------------------------------------------ the collinear case analysis
 /// no end point of one segment lies on the other
